@@ -44,6 +44,11 @@ namespace sim
    template< typename T >
    inline constexpr bool has_depth< T, std::void_t< decltype( std::declval< const T& >().current_depth() ) > > = true;
 
+   template< typename T, typename = void >
+   inline constexpr bool is_plain_buffer = false;
+   template< typename T >
+   inline constexpr bool is_plain_buffer< T, std::void_t< decltype( std::declval< const T& >().buffer_occupied() ) > > = ( input_kind< T > != 2 );
+
    inline std::uint32_t arena_off( const char* p ) noexcept
    {
       if( p >= W.arena - GUARD && p <= W.arena + W.xlen + GUARD ) {
@@ -58,6 +63,14 @@ namespace sim
       Snap s;
       if constexpr( input_kind< In > == 2 ) {
          in.sim_snap( s );
+      }
+      else if constexpr( is_plain_buffer< In > ) {
+         // a stock stream input (cstream_input, istream_input): no stable data pointer, counters only
+         s.byte = s.pos = static_cast< std::uint32_t >( in.byte() );
+         s.line = static_cast< std::uint32_t >( in.line() );
+         s.col = static_cast< std::uint32_t >( in.column() );
+         s.endoff = static_cast< std::uint32_t >( s.byte + in.buffer_occupied() );
+         s.flags |= F_SUB;
       }
       else {
          s.byte = static_cast< std::uint32_t >( in.byte() );
@@ -94,7 +107,7 @@ namespace sim
    {
       Snap s;
       if constexpr( std::is_same_v< typename AI::inputerator_t, const char* > ) {
-         s.byte = s.pos = static_cast< std::uint32_t >( ai.begin() - W.arena );
+         s.byte = s.pos = static_cast< std::uint32_t >( ai.input().byte() - static_cast< std::size_t >( ai.end() - ai.begin() ) );
          const auto p = ai.position();
          s.line = static_cast< std::uint32_t >( p.line );
          s.col = static_cast< std::uint32_t >( p.column );
@@ -316,7 +329,7 @@ namespace sim
       {
          std::uint64_t b;
          if constexpr( std::is_same_v< Iterator, const char* > ) {
-            b = static_cast< std::uint64_t >( begin - W.arena );
+            b = static_cast< std::uint64_t >( in.byte() ) - static_cast< std::uint64_t >( in.current() - begin );
          }
          else {
             b = begin.byte;
